@@ -87,8 +87,12 @@ enum Act {
     /// schedule_in(1 ms) / schedule_in(2 ms): used by the long bursts
     SelfIn1,
     SelfIn2,
+    /// send over a channel-less chain that leads back to the sender itself
+    SendLoop,
+    /// ... over a chain back to the sender with the latency of SelfLater
+    SendLoopLat,
 }
-const ACTS: [Act; 5] = [Act::SendDirect, Act::SendLat, Act::SelfNow, Act::SelfLater, Act::SendDirect2];
+const ACTS: [Act; 7] = [Act::SendDirect, Act::SendLat, Act::SelfNow, Act::SelfLater, Act::SendDirect2, Act::SendLoop, Act::SendLoopLat];
 const D_MS: u64 = 5;
 
 struct Tx {
@@ -107,6 +111,8 @@ impl Module for Tx {
                     Act::SendDirect => send(msg, "d"),
                     Act::SendDirect2 => send(msg, "e"),
                     Act::SendLat => send(msg, "l"),
+                    Act::SendLoop => send(msg, "lo"),
+                    Act::SendLoopLat => send(msg, "llo"),
                     Act::SelfNow => schedule_in(msg, Duration::ZERO),
                     Act::SelfLater => schedule_in(msg, Duration::from_millis(D_MS)),
                     Act::SelfIn1 => schedule_in(msg, Duration::from_millis(1)),
@@ -136,6 +142,11 @@ fn run_net(seq: &[Act], n: usize, t_us: u64) -> Result<Vec<(&'static str, u16, u
         sim.node("rx", Rx { log: log.clone() });
         sim.gate("tx", "d").connect(sim.gate("rx", "d"), None);
         sim.gate("tx", "e").connect(sim.gate("rx", "e"), None);
+        sim.gate("tx", "lo").connect(sim.gate("tx", "li"), None);
+        sim.gate("tx", "llo").connect(
+            sim.gate("tx", "lli"),
+            Some(Channel::new(ChannelMetrics::new(0, Duration::from_millis(D_MS), Duration::ZERO, ChannelDropBehaviour::Drop))),
+        );
         sim.gate("tx", "l").connect(
             sim.gate("rx", "l"),
             Some(Channel::new(ChannelMetrics::new(0, Duration::from_millis(D_MS), Duration::ZERO, ChannelDropBehaviour::Drop))),
@@ -153,7 +164,8 @@ fn arrival(a: Act) -> (&'static str, u128) {
     match a {
         Act::SendDirect | Act::SendDirect2 => ("rx", t1),
         Act::SendLat => ("rx", t1 + u128::from(D_MS) * 1_000_000),
-        Act::SelfNow => ("tx", t1),
+        Act::SelfNow | Act::SendLoop => ("tx", t1),
+        Act::SendLoopLat => ("tx", t1 + u128::from(D_MS) * 1_000_000),
         Act::SelfLater => ("tx", t1 + u128::from(D_MS) * 1_000_000),
         Act::SelfIn1 => ("tx", t1 + 1_000_000),
         Act::SelfIn2 => ("tx", t1 + 2_000_000),
@@ -219,7 +231,7 @@ impl Property for C03 {
         format!(
             "queue layer: the C01 explicit-state BFS with the tie oracle (fetch_next must return exactly the head of the reference list ordered by (time, scheduled-for-current-instant first, scheduling order)) on (n,t,depth) = {:?} (drain after every history; 3 configurations also to depth 5 / 6 without merging states), plus long bursts for one instant (k in {{1,2,63,64,65,66,129,200}} events scheduled for the current instant, before the first dispatch or behind an older event of that instant, with follow-ups scheduled while the burst drains) on 4 parameterisations; \
              runtime layer: every event program of 1..={} events with delays from {:?} x start in {{0,5}}, each run on 5 queue parameterisations (logs must equal the rule and each other) and with 1 and 4 unrelated future events; \
-             net layer: every sequence of 1..={} actions from {{send over two channel-less chains, send over a latency channel, schedule_in(0), schedule_in(d)}} emitted by one handler, on 4 queue parameterisations, plus long bursts (16..70 events, thorough up to 300) of every periodic pattern of period 1..3 over six actions (three self-schedule delays, direct and latency sends); \
+             net layer: every sequence of 1..={} actions from {{send over two channel-less chains, send over a latency channel, send over a channel-less / a latency chain that leads back to the sender (so that sent and self-scheduled messages meet at one receiver in one instant), schedule_in(0), schedule_in(d)}} emitted by one handler, on 4 queue parameterisations, plus long bursts (16..70 events, thorough up to 300) of every periodic pattern of period 1..3 over six actions (three self-schedule delays, direct and latency sends); \
              distinct_nontrivial = distinct canonical queue states with pending events + programs/sequences containing at least one tie",
             queue_cfgs(tier),
             tier.pick(4, 5),
